@@ -653,3 +653,9 @@ def run(prog, rep, tier, snap):
     rep.rule("R15.8", "the arithmetic Hijri variants agree with the tabular calendar: consecutive day numbers, round trip, intercalary years (value-fixed walks)", 1)
     rep.call(r15_8, prog, rep, tier)
 READY = True
+
+LEVEL_TEXT = LEVEL_TEXT + (" The arithmetic (tabular) variants I-IV: hij2mjd(), mjd2hij() and __hij_inty_p() are walked with fixed arguments over whole "
+                           "30-year cycles (first and last days of every month; every day in the thorough tier) and agree with the tabular calendar on consecutive "
+                           "day numbers, the round trip and the intercalary years (two defects of the pinned tree repaired). Not decided: the epochs' absolute "
+                           "position, the table calendars' data, years outside the walked cycles.")
+TECHNIQUE = TECHNIQUE + "; value-fixed walks (constant propagation with C's arithmetic, nothing of echse runs) of the tabular conversions against the tabular calendar"
